@@ -91,7 +91,9 @@ def _get_ast_node_variables(node: ast.AST, aliases: Mapping) -> list[Variable]:
             todo.extend(ast.iter_child_nodes(node))
             continue
         name = _get_ast_node_name(node)
-        name = aliases.get(name, name)
+        # An alias stands for the (quoted) object at the base of the name.
+        base, _, attrs = name.partition(".")
+        name = ".".join(filter(None, (aliases.get(base, base), attrs)))
         if isinstance(node, ast.Call):
             variables.append(Variable(name, roles=["callable"]))
             if isinstance(node.func, ast.Attribute):
